@@ -436,17 +436,73 @@ GEN_THEOREMS = {
 GEN_BASE = ["gen_check_simplex_eq", "gen_check_base_rate_eq", "gen_sx_try_new_eq", "gen_try_new_eq"]
 
 
+GEN_CODE_THEOREMS = {
+    # property -> property theorems restated for the generated definitions (coq/Gen/BiGenProps.v)
+    "C10": ["code_trans_unc_spec", "code_trans_bsr_spec", "code_trans_opp_spec"],
+    "C12": ["code_mul_spec", "code_comul_spec"],
+    "C13": ["code_cfuse_spec"],
+    "C14": ["code_deduce_wf"],
+    "C19": ["code_mul_spec", "code_comul_spec", "code_cfuse_spec", "code_deduce_wf", "code_trans_unc_spec",
+            "code_trans_bsr_spec", "code_trans_opp_spec"],
+}
+GEN_OPS = ["mul", "comul", "cfuse", "afuse", "wfuse", "trans_unc", "trans_opp", "trans_bsr"]
+
+
+def _prove_blocks(d, fname, src, end_kw, only=None):
+    """Compile <src> (a .v text whose statements start at column 0 with Theorem / Lemma and whose section ends
+    with <end_kw>) statement by statement: a statement that fails is recorded and left out (with everything that then
+    fails for lack of it), the others are still checked.  Returns (proved names, {failed name: message}, axioms)."""
+    blocks = re.split(r"(?=^(?:Theorem|Lemma) )", src, flags=re.M)
+    head, thms = blocks[0], blocks[1:]
+    ti = thms[-1].index(end_kw)
+    thms[-1] = thms[-1][:ti]
+    names = [re.match(r"(?:Theorem|Lemma) (\w+)", t).group(1) for t in thms]
+    alive = [i for i, n in enumerate(names) if only is None or n in only or thms[i].startswith("Lemma")]
+    failed = {}
+    for _ in range(len(thms) + 2):
+        keep = [names[i] for i in alive]
+        if not keep:
+            return [], failed, set()
+        body = head + "".join(thms[i] for i in alive)
+        open(os.path.join(d, fname), "w").write(body + end_kw + "\n" + "\n".join("Print Assumptions %s." % n for n in keep) + "\n")
+        rc, out = sh(["timeout", "900", "coqc", "-Q", COQ, "SL", "-Q", d, "SLGen", os.path.join(d, fname)], cwd=d, timeout=1000)
+        if rc == 0:
+            ax = set(re.findall(r"^([A-Za-z_][\w.']*)\s*:", out, re.M)) - {"Axioms"}
+            return [n for n in keep if only is None or n in only], failed, ax
+        m = re.search(r'line (\d+), characters[^\n]*\n(.*)', out, re.S)
+        if not m:
+            failed["*"] = "coqc failed: " + out[-600:]
+            return [], failed, set()
+        txt = body.splitlines()
+        bad = None
+        for ln in range(min(int(m.group(1)), len(txt)) - 1, -1, -1):
+            mm = re.match(r"(?:Theorem|Lemma) (\w+)", txt[ln])
+            if mm:
+                bad = mm.group(1)
+                break
+        if bad is None:
+            failed["*"] = "coqc failed before the first statement: " + out[-600:]
+            return [], failed, set()
+        failed[bad] = re.sub(r"\s+", " ", m.group(2).strip())[:400]
+        alive = [i for i in alive if names[i] != bad]
+    return [], failed, set()
+
+
 def check_translation(pid):
-    """Regenerate the Gallina translation of <repo>/src/bi.rs (tools/rs2v.py), compile it and re-prove that the
-    hand-written model equals it (coq/Gen/BiGenEq.v).  Returns {"theorems": [...], "errors": [...]} restricted to
-    the theorems property <pid> rests on."""
+    """Regenerate the Gallina translation of <repo>/src/bi.rs (tools/rs2v.py), compile it, re-prove that the
+    hand-written model equals it (coq/Gen/BiGenEq.v; coq/Gen/BiGenSem.v where only the semantic tie holds) and
+    re-derive the property theorems for the generated definitions (coq/Gen/BiGenProps.v).
+    Returns {"theorems": [...], "errors": [...]} restricted to what property <pid> rests on."""
+    import hashlib
     want = GEN_THEOREMS.get(pid)
     if not want:
         return {"theorems": [], "errors": []}
     want = list(dict.fromkeys(want + (GEN_BASE if pid != "C01" else [])))
+    want_code = GEN_CODE_THEOREMS.get(pid, [])
     d = os.path.join(SCRATCH, "gen")
     os.makedirs(d, exist_ok=True)
     res = {"theorems": [], "errors": []}
+    rd = lambda f: open(os.path.join(COQ, "Gen", f)).read()
     with Lock("gen" if not ISO else "gen-" + os.path.basename(ISO.rstrip("/"))):
         src = os.path.join(REPO, "src", "bi.rs")
         p = subprocess.run([sys.executable, os.path.join(VERIF, "tools", "rs2v.py"), src], stdout=subprocess.PIPE,
@@ -457,111 +513,61 @@ def check_translation(pid):
             return res
         gen = os.path.join(d, "BiGen.v")
         new = p.stdout.decode()
-        eq_src = open(os.path.join(COQ, "Gen", "BiGenEq.v")).read()
+        eq_src, sem_src, props_src = rd("BiGenEq.v"), rd("BiGenSem.v"), rd("BiGenProps.v")
         stamp = os.path.join(d, "ok.json")
-        import hashlib
-        key = hashlib.sha256((new + "\0" + eq_src + "\0" + open(os.path.join(COQ, "Gen", "BiGenSem.v")).read()).encode()).hexdigest()
+        key = hashlib.sha256("\0".join([new, eq_src, sem_src, props_src]).encode()).hexdigest()
         cached = None
         if os.path.exists(stamp):
             try:
                 cached = json.load(open(stamp))
             except ValueError:
                 cached = None
-        if not cached or cached.get("key") != key or not os.path.exists(os.path.join(COQ, "Model", "Bi.vo")) or \
-                os.path.getmtime(os.path.join(COQ, "Model", "Bi.vo")) > os.path.getmtime(stamp):
+        bivo = os.path.join(COQ, "Facts", "BiDeduce.vo")
+        if not cached or cached.get("key") != key or not os.path.exists(bivo) or os.path.getmtime(bivo) > os.path.getmtime(stamp):
             open(gen, "w").write(new)
-            rc, out = build_coq(["Model/Bi.vo"])
+            rc, out = build_coq(["Facts/BiDeduce.vo", "Facts/BiFuse.vo", "Facts/BiMul.vo", "Facts/Discount.vo"])
             if rc != 0:
                 res["errors"].append("model does not compile: " + out[-800:])
                 return res
             rc, out = sh(["coqc", "-Q", COQ, "SL", "-Q", d, "SLGen", gen], cwd=d, timeout=600)
-            failed = {}
-            proved = []
+            failed, proved, sem, code = {}, [], {}, []
             if rc != 0:
                 failed["*"] = "generated definitions do not type-check: " + out[-600:]
             else:
-                # prove theorem by theorem: a broken one is recorded and left out, the others are still checked
-                blocks = re.split(r"(?=^Theorem )", eq_src, flags=re.M)
-                head, thms = blocks[0], blocks[1:]
-                tail_i = thms[-1].index("End Eq.")
-                thms[-1], tail = thms[-1][:tail_i], thms[-1][tail_i:]
-                names = [re.match(r"Theorem (\w+)", t).group(1) for t in thms]
-                alive = list(range(len(thms)))
-                for _ in range(len(thms) + 1):
-                    keep = [names[i] for i in alive]
-                    tl = "End Eq.\n" + "\n".join("Print Assumptions %s." % n for n in keep) + "\n"
-                    open(os.path.join(d, "BiGenEq.v"), "w").write(head + "".join(thms[i] for i in alive) + tl)
-                    rc, out = sh(["coqc", "-Q", COQ, "SL", "-Q", d, "SLGen", os.path.join(d, "BiGenEq.v")], cwd=d, timeout=600)
-                    if rc == 0:
-                        nclosed = out.count("Closed under the global context")
-                        if nclosed != len(keep):
-                            failed["*"] = "Print Assumptions reports assumptions: " + out[-600:]
-                        proved = keep
-                        break
-                    m = re.search(r'line (\d+), characters[^\n]*\n(.*)', out, re.S)
-                    if not m:
-                        failed["*"] = "coqc failed: " + out[-600:]
-                        break
-                    line = int(m.group(1))
-                    txt = (head + "".join(thms[i] for i in alive)).splitlines()
-                    bad = None
-                    for ln in range(min(line, len(txt)) - 1, -1, -1):
-                        mm = re.match(r"Theorem (\w+)", txt[ln])
-                        if mm:
-                            bad = mm.group(1)
-                            break
-                    if bad is None:
-                        failed["*"] = "coqc failed before the first theorem: " + out[-600:]
-                        break
-                    failed[bad] = m.group(2).strip()[:500]
-                    alive = [i for i in alive if names[i] != bad]
-            # fallback for operators whose generated definition is no longer syntactically the model's: equality
-            # on the real instance for all finite operands (coq/Gen/BiGenSem.v), theorem by theorem
-            sem = {}
-            cand = [t for t in failed if t != "*" and ("sem_" + t[4:]) in open(os.path.join(COQ, "Gen", "BiGenSem.v")).read()]
-            if cand and "*" not in failed and all(b in proved for b in GEN_BASE):
-                sem_src = open(os.path.join(COQ, "Gen", "BiGenSem.v")).read()
-                sblocks = re.split(r"(?=^Theorem )", sem_src, flags=re.M)
-                shead, sthms = sblocks[0], sblocks[1:]
-                ti = sthms[-1].index("End Sem.")
-                sthms[-1] = sthms[-1][:ti]
-                snames = [re.match(r"Theorem (\w+)", t).group(1) for t in sthms]
-                salive = [i for i, n in enumerate(snames) if ("gen_" + n[4:]) in cand]
-                for _ in range(len(sthms) + 1):
-                    keep = [snames[i] for i in salive]
-                    if not keep:
-                        break
-                    tl = "End Sem.\n" + "\n".join("Print Assumptions %s." % n for n in keep) + "\n"
-                    open(os.path.join(d, "BiGenSem.v"), "w").write(shead + "".join(sthms[i] for i in salive) + tl)
-                    rc, out = sh(["timeout", "600", "coqc", "-Q", COQ, "SL", "-Q", d, "SLGen", os.path.join(d, "BiGenSem.v")], cwd=d, timeout=700)
-                    if rc == 0:
-                        ax = set(re.findall(r"^([A-Za-z_][\w.']*)\s*:", out, re.M)) - {"Axioms"}
-                        if ax <= ALLOWED_AXIOMS:
-                            for n in keep:
-                                sem["gen_" + n[4:]] = n
-                        break
-                    m = re.search(r'line (\d+), characters', out)
-                    if not m:
-                        break
-                    line = int(m.group(1))
-                    txt = (shead + "".join(sthms[i] for i in salive)).splitlines()
-                    bad = None
-                    for ln in range(min(line, len(txt)) - 1, -1, -1):
-                        mm = re.match(r"Theorem (\w+)", txt[ln])
-                        if mm:
-                            bad = mm.group(1)
-                            break
-                    if bad is None:
-                        break
-                    salive = [i for i in salive if snames[i] != bad]
-            for t, sname in sem.items():
-                del failed[t]
-                proved.append(t)
-            cached = {"key": key, "proved": proved, "failed": failed, "semantic": sem}
+                proved, failed, ax = _prove_blocks(d, "BiGenEq.v", eq_src, "End Eq.")
+                if ax:
+                    failed["*"] = "BiGenEq.v: Print Assumptions reports " + ", ".join(sorted(ax))
+                # fallback for operators whose generated definition is no longer syntactically the model's: equality
+                # on the real instance for all finite operands (coq/Gen/BiGenSem.v)
+                cand = {"sem_" + t[4:] for t in failed if t != "*"}
+                if cand and "*" not in failed and all(b in proved for b in GEN_BASE):
+                    sp, sf, ax = _prove_blocks(d, "BiGenSem.v", sem_src, "End Sem.", only=cand)
+                    if ax <= ALLOWED_AXIOMS:
+                        for n in sp:
+                            sem["gen_" + n[4:]] = n
+                    for t in sem:
+                        del failed[t]
+                        proved.append(t)
+                if "*" not in failed:
+                    # the property theorems for the generated definitions, along whichever tie holds
+                    def tie(m):
+                        op = m.group(1)
+                        if ("gen_%s_eq" % op) in sem:
+                            return "apply sem_%s_eq; apply fin_bopR." % op
+                        return "apply gen_%s_eq." % op
+                    ps = re.sub(r"\(\*TIE:(\w+):(\d)\*\)", tie, props_src).replace("(*SEM*)", " BiGenSem" if sem else "")
+                    cp, cf, ax = _prove_blocks(d, "BiGenProps.v", ps, "End Code.")
+                    if ax <= ALLOWED_AXIOMS:
+                        code = [n for n in cp if n.startswith("code_")]
+                    for n, msg in cf.items():
+                        if n.startswith("code_"):
+                            failed[n] = msg
+            cached = {"key": key, "proved": proved, "failed": failed, "semantic": sem, "code": code}
             json.dump(cached, open(stamp, "w"))
     for t in want:
         if t in cached["proved"]:
             res["theorems"].append(cached.get("semantic", {}).get(t, t))
+    res["theorems"] += [t for t in want_code if t in cached.get("code", [])]
     if "*" in cached["failed"]:
         res["errors"].append("the model's tie to src/bi.rs is broken: " + cached["failed"]["*"])
     for t in want:
@@ -571,6 +577,11 @@ def check_translation(pid):
         elif t not in cached["proved"] and "*" not in cached["failed"]:
             res["errors"].append("theorem %s (coq/Gen/BiGenEq.v) could not be checked because an earlier one failed: %s" % (
                 t, "; ".join(cached["failed"])))
+    if not res["errors"]:
+        for t in want_code:
+            if t not in cached.get("code", []):
+                res["errors"].append("property theorem %s for the generated definitions (coq/Gen/BiGenProps.v) no longer "
+                                     "checks: %s" % (t, cached["failed"].get(t, "a statement it depends on failed")))
     return res
 
 
